@@ -221,9 +221,24 @@ func histSrc(texts [][]itemT) string {
 	bump := func(kind, name string) { ver[kind+":"+name]++ }
 	var decls, body strings.Builder
 	nInit := 0
+	iota := 0 // index of the next const spec in its declaration
+	constSrc := func(it *itemT) string {
+		if it.Open || !it.Paren {
+			iota = 0
+		}
+		t := ""
+		if it.Typ == "int" {
+			t = " int"
+		} else if it.Typ != "" {
+			t = " " + rn("type", it.Typ)
+		}
+		s := fmt.Sprintf("const %s%s = %s\n", rn("var", it.X), t, it.KE.src(rn, iota))
+		iota++
+		return s
+	}
 	declare := func(it *itemT) {
 		switch it.K {
-		case "var", "closure", "define":
+		case "var", "closure", "define", "const":
 			bump("var", it.X)
 		case "func":
 			bump("func", it.X)
@@ -246,6 +261,8 @@ func histSrc(texts [][]itemT) string {
 			for i := range t {
 				it := &t[i]
 				switch it.K {
+				case "const":
+					decls.WriteString(constSrc(it))
 				case "var":
 					fmt.Fprintf(&decls, "var %s int\n", rn("var", it.X))
 					fmt.Fprintf(&body, "\t%s = %s\n", rn("var", it.X), it.E.src(rn))
